@@ -620,15 +620,21 @@ class DataProviderLinked(DataProvider):
             )
         )
 
+        aligned_group_labels = aligned_group_labels.astype(object)
         group_definitions: dict[str, list[str]] = {}
         for i, group_label in enumerate(aligned_group_labels):
-            if group_label not in group_definitions:
-                group_definitions[group_label] = list(
-                    filter(
-                        lambda label: label != "",
-                        aligned_groups.isel({"global": i}).data,
-                    )
+            dataset_labels = list(
+                filter(
+                    lambda label: label != "",
+                    aligned_groups.isel({"global": i}).data,
                 )
+            )
+            # the concatenated labels of different dataset combinations can coincide
+            # (e.g. 'a' + 'b' and 'ab'), such groups need to be told apart
+            while group_definitions.get(group_label, dataset_labels) != dataset_labels:
+                group_label += "'"
+            aligned_group_labels[i] = group_label
+            group_definitions[group_label] = dataset_labels
         return aligned_group_labels, group_definitions
 
     def align_weights(self, aligned_global_axes: dict[str, ArrayLike]) -> list[ArrayLike | None]:
